@@ -36,6 +36,10 @@ CONSTANTS Variant,      \* "orig" | "fixed"
           MaxFatal,     \* how many cores may end with a fatal interrupt
           MaxCalls,     \* SpawnSync calls the host issues one after the other
           AllowCancel,  \* the canceller exists
+          InitWork,     \* quanta a core runs before it may finish normally (0 when validating traces)
+          StrictCancel, \* schedule export only: a core that could have seen the cancellation does nothing but offer
+                        \* "term" (the real core polls at quantum boundaries, so it may still do a little more;
+                        \* FALSE = the permissive model used for checking and trace validation)
           RecordHist    \* keep the schedule in `hist` (only for schedule export by simulation)
 
 VARIABLES list, rw, cst, res, work, cancelled, spawned, fatals,
@@ -58,7 +62,7 @@ WIdle == [pc |-> "idle", snap |-> <<>>, i |-> 0, new |-> <<>>, got |-> 0, goti |
 Init ==
     /\ list = <<>> /\ rw = [r |-> 0, w |-> FALSE]
     /\ cst = [c \in Cores |-> "unborn"] /\ res = [c \in Cores |-> "nil"]
-    /\ work = [c \in Cores |-> 1]
+    /\ work = [c \in Cores |-> InitWork]
     /\ cancelled = FALSE /\ spawned = 0 /\ fatals = 0
     /\ w = WIdle
     /\ sp = [s \in Spawners |-> [st |-> "idle", new |-> 0]]
@@ -71,7 +75,7 @@ CoreRemove(s, c) == SelectSeq(s, LAMBDA x : x # c)
 (* spawnCore + spawnCoreInternal, executed by spawner s (host or a core)   *)
 CanSpawn(s) ==
     IF s = 0 THEN w.pc = "idle" /\ calls < MaxCalls /\ sp[0].st = "idle"
-    ELSE cst[s] = "run" /\ spawned < MaxSpawns /\ sp[s].st = "idle"
+    ELSE cst[s] = "run" /\ spawned < MaxSpawns /\ sp[s].st = "idle" /\ (StrictCancel => ~cancelled)
 
 SpawnLock(s) ==          \* self.Cores.Lock.Lock()
     /\ CanSpawn(s) /\ sp[s].st = "idle"
@@ -118,9 +122,11 @@ CoreWork(c) ==
 
 CoreOffer(c) ==          \* self.SignalHandle <- i   (the send blocks until Wait receives)
     /\ cst[c] = "run" /\ sp[c].st = "idle"
+    \* a termination interrupt needs a cancelled context; the program's own outcome (nil / fatal) may
+    \* still come first when the core finishes within its current quantum
     /\ \/ /\ cancelled /\ res' = [res EXCEPT ![c] = "term"] /\ fatals' = fatals
-       \/ /\ ~cancelled /\ work[c] = 0 /\ res' = [res EXCEPT ![c] = "nil"] /\ fatals' = fatals
-       \/ /\ ~cancelled /\ fatals < MaxFatal /\ res' = [res EXCEPT ![c] = "fatal"] /\ fatals' = fatals + 1
+       \/ /\ work[c] = 0 /\ (StrictCancel => ~cancelled) /\ res' = [res EXCEPT ![c] = "nil"] /\ fatals' = fatals
+       \/ /\ fatals < MaxFatal /\ (StrictCancel => ~cancelled) /\ res' = [res EXCEPT ![c] = "fatal"] /\ fatals' = fatals + 1
     /\ cst' = [cst EXCEPT ![c] = "offer"]
     /\ H(c, "Offer")
     /\ UNCHANGED <<list, rw, work, cancelled, spawned, w, sp, calls, ret>>
@@ -132,27 +138,35 @@ HostCancel ==
     /\ UNCHANGED <<list, rw, cst, res, work, spawned, fatals, w, sp, calls, ret>>
 
 -----------------------------------------------------------------------------
-(* Wait.  pcs of the waiter:                                               *)
-(*  start -> rlocked -> (poll each core of the snapshot) -> ...            *)
-WSet(f) == w' = f
+(* Wait.  The waiter's pcs                                                 *)
+(*   orig :  start -RLock-> iter (polls while holding the read lock)       *)
+(*           nil: nilRU nilL nilA nilU nilRL -> iter                       *)
+(*           err: errRU errL errC errU errRL -> return (holding RLock!)    *)
+(*   fixed:  start -RLock-> snapL -SnapUnlock-> iterU (polls, no lock)     *)
+(*           nil: nilL nilA nilU -> iterU                                  *)
+(*           err: errL errC errU -> drain: snapshot, blocking receive of   *)
+(*                every remaining core, removal as in the nil case,        *)
+(*                until the list is empty -> return                        *)
 Others == <<cst, res, work, cancelled, spawned, fatals, sp, calls>>
+Fixed == Variant = "fixed"
 
-WaitRLock ==             \* self.Cores.Lock.RLock()
-    /\ w.pc \in {"start", "sleep"} /\ ~rw.w
+WaitRLock ==             \* RLock(); the slice header is read once (range / coreSnapshot)
+    /\ w.pc \in {"start", "sleep", "drainStart"} /\ ~rw.w
+    /\ w.pc = "drainStart" => Fixed
     /\ rw' = [rw EXCEPT !.r = rw.r + 1]
-    /\ w' = [w EXCEPT !.pc = "iter", !.snap = list, !.i = 1]     \* `range self.Cores.Cores` evaluates the slice once
+    /\ w' = [w EXCEPT !.pc = IF Fixed THEN "snapL" ELSE "iter", !.snap = list, !.i = 1]
     /\ H(0, "WaitRLock")
     /\ UNCHANGED <<list, ret>> /\ UNCHANGED Others
 
-\* orig: iterate while holding the read lock.  fixed: the snapshot is taken, the lock released.
-WaitSnapUnlock ==
-    /\ Variant = "fixed" /\ w.pc = "iter" /\ w.i = 1 /\ rw.r > 0 /\ ~w.drain
+WaitSnapUnlock ==        \* fixed: the read lock is released before the cores are polled
+    /\ Fixed /\ w.pc = "snapL"
     /\ rw' = [rw EXCEPT !.r = rw.r - 1]
-    /\ w' = [w EXCEPT !.pc = "iterU"]
+    /\ w' = [w EXCEPT !.pc = IF w.drain THEN (IF w.snap = <<>> THEN "retErr" ELSE "drainRecv")
+                             ELSE (IF w.snap = <<>> THEN "retNil" ELSE "iterU")]
     /\ H(0, "WaitSnapUnlock")
     /\ UNCHANGED <<list, ret>> /\ UNCHANGED Others
 
-IterPc == IF Variant = "fixed" THEN "iterU" ELSE "iter"
+IterPc == IF Fixed THEN "iterU" ELSE "iter"
 
 WaitPoll ==              \* select { case i := <-core.SignalHandle: ... default: }
     /\ w.pc = IterPc /\ w.i <= Len(w.snap)
@@ -160,9 +174,10 @@ WaitPoll ==              \* select { case i := <-core.SignalHandle: ... default:
        IF cst[c] = "offer"
        THEN /\ cst' = [cst EXCEPT ![c] = "done"]                  \* the core's send completes
             /\ w' = [w EXCEPT !.got = c, !.goti = res[c],
-                              !.new = IF Variant = "orig" THEN CoreRemove(list, c) ELSE <<>>,   \* orig: computed under the READ lock
+                              !.new = IF Fixed THEN <<>> ELSE CoreRemove(list, c),   \* orig: computed under the READ lock
                               !.fc = IF res[c] = "nil" THEN w.fc ELSE c, !.fi = IF res[c] = "nil" THEN w.fi ELSE res[c],
-                              !.pc = IF res[c] = "nil" THEN "nilRU" ELSE "errRU"]
+                              !.pc = IF res[c] = "nil" THEN (IF Fixed THEN "nilL" ELSE "nilRU")
+                                     ELSE (IF Fixed THEN "errL" ELSE "errRU")]
             /\ H(0, "WaitRecv")
        ELSE /\ cst' = cst
             /\ w' = [w EXCEPT !.i = w.i + 1]
@@ -171,8 +186,8 @@ WaitPoll ==              \* select { case i := <-core.SignalHandle: ... default:
 
 \* ---- a core finished with nil: remove it from the list
 WaitNilRUnlock ==
-    /\ w.pc = "nilRU"
-    /\ IF Variant = "orig" THEN rw' = [rw EXCEPT !.r = rw.r - 1] ELSE rw' = rw
+    /\ ~Fixed /\ w.pc = "nilRU"
+    /\ rw' = [rw EXCEPT !.r = rw.r - 1]
     /\ w' = [w EXCEPT !.pc = "nilL"]
     /\ H(0, "WaitNilRUnlock")
     /\ UNCHANGED <<list, ret>> /\ UNCHANGED Others
@@ -186,7 +201,7 @@ WaitNilLock ==
 
 WaitNilAssign ==
     /\ w.pc = "nilA"
-    /\ list' = IF Variant = "orig" THEN w.new ELSE CoreRemove(list, w.got)    \* fixed: recomputed under the WRITE lock
+    /\ list' = IF Fixed THEN CoreRemove(list, w.got) ELSE w.new    \* fixed: recomputed under the WRITE lock
     /\ w' = [w EXCEPT !.pc = "nilU"]
     /\ H(0, "WaitNilAssign")
     /\ UNCHANGED <<rw, ret>> /\ UNCHANGED Others
@@ -194,12 +209,15 @@ WaitNilAssign ==
 WaitNilUnlock ==
     /\ w.pc = "nilU"
     /\ rw' = [rw EXCEPT !.w = FALSE]
-    /\ w' = [w EXCEPT !.pc = IF Variant = "orig" THEN "nilRL" ELSE (IF w.drain THEN "drainNext" ELSE IterPc), !.i = w.i + 1]
+    /\ w' = [w EXCEPT !.i = w.i + 1,
+                      !.pc = IF ~Fixed THEN "nilRL"
+                             ELSE IF ~w.drain THEN "iterU"
+                             ELSE IF w.i + 1 <= Len(w.snap) THEN "drainRecv" ELSE "drainStart"]
     /\ H(0, "WaitNilUnlock")
     /\ UNCHANGED <<list, ret>> /\ UNCHANGED Others
 
 WaitNilRLock ==
-    /\ Variant = "orig" /\ w.pc = "nilRL" /\ ~rw.w
+    /\ ~Fixed /\ w.pc = "nilRL" /\ ~rw.w
     /\ rw' = [rw EXCEPT !.r = rw.r + 1]
     /\ w' = [w EXCEPT !.pc = "iter"]
     /\ H(0, "WaitNilRLock")
@@ -207,8 +225,8 @@ WaitNilRLock ==
 
 \* ---- a core finished with an interrupt
 WaitErrRUnlock ==
-    /\ w.pc = "errRU"
-    /\ IF Variant = "orig" THEN rw' = [rw EXCEPT !.r = rw.r - 1] ELSE rw' = rw
+    /\ ~Fixed /\ w.pc = "errRU"
+    /\ rw' = [rw EXCEPT !.r = rw.r - 1]
     /\ w' = [w EXCEPT !.pc = "errL"]
     /\ H(0, "WaitErrRUnlock")
     /\ UNCHANGED <<list, ret>> /\ UNCHANGED Others
@@ -220,10 +238,10 @@ WaitErrLock ==
     /\ H(0, "WaitErrLock")
     /\ UNCHANGED <<list, ret>> /\ UNCHANGED Others
 
-WaitErrCancel ==         \* (*self.CancelFunc)(); orig: self.Cores.Cores = make([]Core, 0); fixed: remove this core only
+WaitErrCancel ==         \* (*self.CancelFunc)(); orig: the list is cleared; fixed: this core only is removed
     /\ w.pc = "errC"
     /\ cancelled' = TRUE
-    /\ list' = IF Variant = "orig" THEN <<>> ELSE CoreRemove(list, w.got)
+    /\ list' = IF Fixed THEN CoreRemove(list, w.got) ELSE <<>>
     /\ w' = [w EXCEPT !.pc = "errU"]
     /\ H(0, "WaitErrCancel")
     /\ UNCHANGED <<rw, cst, res, work, spawned, fatals, sp, calls, ret>>
@@ -231,37 +249,21 @@ WaitErrCancel ==         \* (*self.CancelFunc)(); orig: self.Cores.Cores = make(
 WaitErrUnlock ==
     /\ w.pc = "errU"
     /\ rw' = [rw EXCEPT !.w = FALSE]
-    /\ w' = [w EXCEPT !.pc = IF Variant = "orig" THEN "errRL" ELSE "drainStart"]
+    /\ w' = [w EXCEPT !.pc = IF Fixed THEN "drainStart" ELSE "errRL", !.drain = Fixed]
     /\ H(0, "WaitErrUnlock")
     /\ UNCHANGED <<list, ret>> /\ UNCHANGED Others
 
 WaitErrRLockReturn ==    \* orig: RLock() and return while still holding it
-    /\ Variant = "orig" /\ w.pc = "errRL" /\ ~rw.w
+    /\ ~Fixed /\ w.pc = "errRL" /\ ~rw.w
     /\ rw' = [rw EXCEPT !.r = rw.r + 1]
-    /\ w' = [WIdle EXCEPT !.pc = "idle"]
+    /\ w' = WIdle
     /\ ret' = [k |-> "err", c |-> w.got, i |-> w.goti]
     /\ H(0, "WaitReturnErr")
     /\ UNCHANGED <<list>> /\ UNCHANGED Others
 
 \* ---- fixed: after the first interrupt the rest is cancelled and waited for (blocking receives)
-WaitDrainStart ==        \* RLock; snapshot; RUnlock (one atomic read of the list under the read lock)
-    /\ Variant = "fixed" /\ w.pc = "drainStart" /\ ~rw.w
-    /\ IF list = <<>>
-       THEN /\ w' = WIdle
-            /\ ret' = [k |-> "err", c |-> w.fc, i |-> w.fi]
-            /\ H(0, "WaitReturnErr")
-       ELSE /\ w' = [w EXCEPT !.pc = "drainRecv", !.snap = list, !.i = 1, !.drain = TRUE]
-            /\ ret' = ret /\ H(0, "WaitDrainSnap")
-    /\ UNCHANGED <<list, rw>> /\ UNCHANGED Others
-
-WaitDrainNext ==
-    /\ Variant = "fixed" /\ w.pc = "drainNext"
-    /\ w' = [w EXCEPT !.pc = IF w.i <= Len(w.snap) THEN "drainRecv" ELSE "drainStart"]
-    /\ H(0, "WaitDrainNext")
-    /\ UNCHANGED <<list, rw, ret>> /\ UNCHANGED Others
-
-WaitDrainRecv ==         \* <-core.SignalHandle  (blocking)
-    /\ Variant = "fixed" /\ w.pc = "drainRecv"
+WaitDrainRecv ==         \* <-other.SignalHandle  (blocking)
+    /\ Fixed /\ w.pc = "drainRecv"
     /\ LET c == w.snap[w.i] IN
         /\ cst[c] = "offer"
         /\ cst' = [cst EXCEPT ![c] = "done"]
@@ -269,21 +271,31 @@ WaitDrainRecv ==         \* <-core.SignalHandle  (blocking)
     /\ H(0, "WaitDrainRecv")
     /\ UNCHANGED <<list, rw, res, work, cancelled, spawned, fatals, sp, calls, ret>>
 
+WaitReturnErr ==
+    /\ Fixed /\ w.pc = "retErr"
+    /\ w' = WIdle /\ ret' = [k |-> "err", c |-> w.fc, i |-> w.fi]
+    /\ H(0, "WaitReturnErr")
+    /\ UNCHANGED <<list, rw>> /\ UNCHANGED Others
+
+WaitReturnNil ==
+    /\ Fixed /\ w.pc = "retNil"
+    /\ w' = WIdle /\ ret' = [k |-> "nil"]
+    /\ H(0, "WaitReturnNil")
+    /\ UNCHANGED <<list, rw>> /\ UNCHANGED Others
+
 \* ---- end of one pass over the snapshot
 WaitPassEnd ==
     /\ w.pc = IterPc /\ w.i > Len(w.snap)
-    /\ IF Variant = "orig"
-       THEN /\ rw' = [rw EXCEPT !.r = rw.r - 1]
+    /\ IF Fixed
+       THEN /\ rw' = rw /\ w' = [w EXCEPT !.pc = "sleep"] /\ ret' = ret /\ H(0, "WaitSleep")
+       ELSE /\ rw' = [rw EXCEPT !.r = rw.r - 1]
             /\ IF list = <<>> THEN w' = WIdle /\ ret' = [k |-> "nil"] /\ H(0, "WaitReturnNil")
-               ELSE w' = [w EXCEPT !.pc = "sleep"] /\ ret' = ret /\ H(0, "WaitSleep")
-       ELSE /\ rw' = rw
-            /\ IF w.snap = <<>> THEN w' = WIdle /\ ret' = [k |-> "nil"] /\ H(0, "WaitReturnNil")
                ELSE w' = [w EXCEPT !.pc = "sleep"] /\ ret' = ret /\ H(0, "WaitSleep")
     /\ UNCHANGED <<list>> /\ UNCHANGED Others
 
 WaitStep == WaitRLock \/ WaitSnapUnlock \/ WaitPoll \/ WaitNilRUnlock \/ WaitNilLock \/ WaitNilAssign \/ WaitNilUnlock
             \/ WaitNilRLock \/ WaitErrRUnlock \/ WaitErrLock \/ WaitErrCancel \/ WaitErrUnlock \/ WaitErrRLockReturn
-            \/ WaitDrainStart \/ WaitDrainNext \/ WaitDrainRecv \/ WaitPassEnd
+            \/ WaitDrainRecv \/ WaitReturnErr \/ WaitReturnNil \/ WaitPassEnd
 
 SpawnStep(s) == SpawnLock(s) \/ SpawnAppend(s) \/ SpawnUnlock(s) \/ SpawnGo(s)
 CoreStep(c) == CoreWork(c) \/ CoreOffer(c) \/ SpawnStep(c)
